@@ -426,6 +426,10 @@ def inline_module(tree, modname):
                             sub = getattr(s, fld, None)
                             if isinstance(sub, list) and not isinstance(s, (ast.FunctionDef, ast.AsyncFunctionDef, ast.ClassDef)):
                                 rewrite(sub)
+                            elif isinstance(sub, list) and isinstance(s, ast.FunctionDef) and cname is not None \
+                                    and "self" not in [a.arg for a in s.args.args + s.args.kwonlyargs]:
+                                # a closure of a method sees the method's self: helpers called through it are expanded there too
+                                rewrite(sub)
                         for h in getattr(s, "handlers", []) or []:
                             rewrite(h.body)
                         i += 1
@@ -461,7 +465,15 @@ def inline_module(tree, modname):
                             if expr is None:
                                 return node
                         mapping = _bind(node, h, is_method_scope)
-                        if mapping is None or not all(_simple(v) for v in mapping.values()):
+                        if mapping is None:
+                            return node
+                        # an argument that is not a plain name may be substituted when the parameter occurs exactly once in
+                        # the helper's expression (it is then evaluated once, as at the call)
+                        occ = {}
+                        for y in ast.walk(expr):
+                            if isinstance(y, ast.Name):
+                                occ[y.id] = occ.get(y.id, 0) + 1
+                        if not all(_simple(v) or occ.get(p_, 0) == 1 for p_, v in mapping.items()):
                             return node
                         new = _Subst(mapping, {}).visit(copy.deepcopy(expr))
                         for n_ in ast.walk(new):
@@ -908,7 +920,25 @@ def _inline_single_use_temps(fn):
                     continue
                 if eff:
                     val = getattr(S, "value", None)
-                    if not (j == k + 1 and isinstance(S, (ast.Assign, ast.Return, ast.AugAssign)) and val is ms[0]):
+
+                    def leftmost(e):
+                        # the sub-expression Python evaluates first
+                        while True:
+                            if isinstance(e, ast.Call):
+                                e = e.func
+                            elif isinstance(e, (ast.Attribute, ast.Subscript, ast.Await, ast.Starred)):
+                                e = e.value
+                            elif isinstance(e, ast.BinOp):
+                                e = e.left
+                            elif isinstance(e, ast.Compare):
+                                e = e.left
+                            elif isinstance(e, ast.BoolOp):
+                                e = e.values[0]
+                            elif isinstance(e, ast.UnaryOp):
+                                e = e.operand
+                            else:
+                                return e
+                    if not (j == k + 1 and isinstance(S, (ast.Assign, ast.Return, ast.AugAssign, ast.Expr)) and val is not None and leftmost(val) is ms[0]):
                         continue
                     if isinstance(S, ast.Assign) and any(has_effect(t) for t in S.targets):
                         continue
@@ -987,7 +1017,90 @@ def _lower_ifexp(fn):
     walk(fn.body)
 
 
+def _simple_sig(fn):
+    a = fn.args
+    return not (a.vararg or a.kwarg or a.kwonlyargs or a.posonlyargs) and not fn.decorator_list
+
+
+def _kwargs_to_positional(tree):
+    """f(a, b, x=1, y=2) -> f(a, b, 1, 2) for calls of a module-level function of this module with a plain signature, when the
+    keywords name its next parameters (so that the positional form binds exactly the same way)."""
+    mod_fns = dict((n.name, n) for n in tree.body if isinstance(n, ast.FunctionDef) and _simple_sig(n))
+    for c in ast.walk(tree):
+        if not (isinstance(c, ast.Call) and isinstance(c.func, ast.Name) and c.func.id in mod_fns and c.keywords):
+            continue
+        if any(isinstance(a, ast.Starred) for a in c.args) or any(k.arg is None for k in c.keywords):
+            continue
+        params = [a.arg for a in mod_fns[c.func.id].args.args]
+        kw = dict((k.arg, k.value) for k in c.keywords)
+        rest = params[len(c.args):]
+        if not set(kw) <= set(rest):
+            continue
+        take = rest[:len(kw)]
+        if set(take) != set(kw):
+            continue            # a gap (an unbound parameter before a keyword one): leave the call alone
+        c.args = list(c.args) + [kw[p] for p in take]
+        c.keywords = []
+
+
+def _partial_to_def(tree):
+    """T = functools.partial(F, *bound, **named), F a module-level function of this module with a plain signature, becomes
+    `def T(<unbound leading parameters>): return F(<all parameters>)`: the key-function / callback rules then see an ordinary function.
+    (The bound expressions are plain names or attribute chains; they are read when T is called instead of when it is made.)"""
+    mod_fns = dict((n.name, n) for n in tree.body if isinstance(n, ast.FunctionDef) and _simple_sig(n))
+
+    def convert(st):
+        if not (isinstance(st, ast.Assign) and len(st.targets) == 1 and isinstance(st.targets[0], ast.Name) and isinstance(st.value, ast.Call)):
+            return None
+        c = st.value
+        nm = ast.unparse(c.func)
+        if nm not in ("functools.partial", "partial") or not c.args or not isinstance(c.args[0], ast.Name) or c.args[0].id not in mod_fns:
+            return None
+        if any(isinstance(a, ast.Starred) for a in c.args) or any(k.arg is None for k in c.keywords):
+            return None
+        F = mod_fns[c.args[0].id]
+        params = [a.arg for a in F.args.args]
+        bound = {}
+        for p, v in zip(params, c.args[1:]):
+            bound[p] = v
+        for k in c.keywords:
+            if k.arg not in params or k.arg in bound:
+                return None
+            bound[k.arg] = k.value
+        if not all(_is_chain(v) or isinstance(v, ast.Constant) for v in bound.values()):
+            return None
+        unbound = [p for p in params if p not in bound]
+        # the unbound parameters must be the leading ones once the bound ones are removed in order
+        if F.args.defaults and any(p in unbound for p in params[len(params) - len(F.args.defaults):]):
+            return None
+        call = ast.Call(func=ast.Name(id=F.name, ctx=ast.Load()),
+                        args=[copy.deepcopy(bound[p]) if p in bound else ast.Name(id=p, ctx=ast.Load()) for p in params], keywords=[])
+        new = ast.FunctionDef(name=st.targets[0].id, args=ast.arguments(posonlyargs=[], args=[ast.arg(arg=p) for p in unbound], vararg=None, kwonlyargs=[],
+                                                                       kw_defaults=[], kwarg=None, defaults=[]),
+                              body=[ast.Return(value=call)], decorator_list=[], returns=None, type_comment=None, type_params=[])
+        ast.copy_location(new, st)
+        ast.fix_missing_locations(new)
+        return new
+
+    def walk(stmts):
+        for k, st in enumerate(list(stmts)):
+            n = convert(st)
+            if n is not None:
+                stmts[k] = n
+                continue
+            for fld in ("body", "orelse", "finalbody"):
+                sub = getattr(st, fld, None)
+                if isinstance(sub, list) and not isinstance(st, ast.ClassDef):
+                    walk(sub)
+            for h in getattr(st, "handlers", []) or []:
+                walk(h.body)
+    for fn in [n for n in tree.body if isinstance(n, (ast.FunctionDef, ast.AsyncFunctionDef))]:
+        walk(fn.body)
+
+
 def normalize_module(tree):
+    _kwargs_to_positional(tree)
+    _partial_to_def(tree)
     for fn in [n for n in ast.walk(tree) if isinstance(n, (ast.FunctionDef, ast.AsyncFunctionDef))]:
         _lower_ifexp(fn)
     for fn in [n for n in ast.walk(tree) if isinstance(n, (ast.FunctionDef, ast.AsyncFunctionDef))]:
@@ -998,3 +1111,159 @@ def normalize_module(tree):
         _split_tuple_assigns(fn)
     for fn in [n for n in ast.walk(tree) if isinstance(n, (ast.FunctionDef, ast.AsyncFunctionDef))]:
         _propagate_aliases(fn)
+
+
+# ------------------------------------------------------------------------------------------
+# package-level normalisation: a guard that every caller establishes is (also) put into the callee
+# ------------------------------------------------------------------------------------------
+
+def normalize_package(trees):
+    """For a private function / method (leading underscore or a module-level helper not in the baseline... here: any name) ALL of whose
+    call sites in the package are lexically guarded by the same condition on an argument (`a is not None`) or on a field of the
+    receiver (`x.flag` / `not x.flag`), the equivalent early return is inserted at the top of the callee, unless it is there
+    already.  The callers are left as they are; the inserted test is redundant by construction, so behaviour is unchanged, and the
+    rules see the guard where they look for it whether the author wrote it in the callee or in the callers.  Returns notes."""
+    notes = []
+    defs = {}        # name -> [(tree name, FunctionDef, is_method)]
+    for tn, tree in trees.items():
+        for node in tree.body:
+            if isinstance(node, ast.FunctionDef):
+                defs.setdefault(node.name, []).append((tn, node, False))
+            elif isinstance(node, ast.ClassDef):
+                for sub in node.body:
+                    if isinstance(sub, ast.FunctionDef):
+                        defs.setdefault(sub.name, []).append((tn, sub, True))
+    parents = {}
+    for tree in trees.values():
+        for p in ast.walk(tree):
+            for c in ast.iter_child_nodes(p):
+                parents[id(c)] = p
+    calls = {}       # name -> [call nodes]
+    for tree in trees.values():
+        for n in ast.walk(tree):
+            if isinstance(n, ast.Call):
+                nm = n.func.id if isinstance(n.func, ast.Name) else (n.func.attr if isinstance(n.func, ast.Attribute) else None)
+                if nm in defs:
+                    calls.setdefault(nm, []).append(n)
+            elif isinstance(n, (ast.Name, ast.Attribute)) and isinstance(getattr(n, "ctx", None), ast.Load):
+                # a function that is also passed around as a value has call sites we do not see
+                nm = n.id if isinstance(n, ast.Name) else n.attr
+                par = parents.get(id(n))
+                if nm in defs and not (isinstance(par, ast.Call) and par.func is n):
+                    calls.setdefault(nm, []).append(None)
+
+    def strip_not(e):
+        pos = True
+        while isinstance(e, ast.UnaryOp) and isinstance(e.op, ast.Not):
+            e, pos = e.operand, not pos
+        return e, pos
+
+    def established(call, want):
+        """Is `want` = (kind, expr source, polarity) established on the way to `call` by enclosing ifs?"""
+        cur = call
+        while id(cur) in parents:
+            par = parents[id(cur)]
+            if isinstance(par, ast.If):
+                in_body = any(cur is x or any(cur is y for y in ast.walk(x)) for x in par.body)
+                in_else = any(cur is x or any(cur is y for y in ast.walk(x)) for x in par.orelse)
+                tests = [par.test]
+                if isinstance(par.test, ast.BoolOp) and isinstance(par.test.op, ast.And) and in_body:
+                    tests = list(par.test.values)
+                for t in tests:
+                    e, pos = strip_not(t)
+                    fact = None
+                    if isinstance(e, ast.Compare) and len(e.ops) == 1 and isinstance(e.ops[0], (ast.Is, ast.IsNot)) and isinstance(e.comparators[0], ast.Constant) \
+                            and e.comparators[0].value is None:
+                        isnone = isinstance(e.ops[0], ast.Is) == pos
+                        fact = ("isnone", ast.unparse(e.left), isnone)
+                    elif isinstance(e, (ast.Name, ast.Attribute)):
+                        fact = ("truth", ast.unparse(e), pos)
+                    if fact is None:
+                        continue
+                    if in_else and not in_body and len(tests) == 1:
+                        fact = (fact[0], fact[1], not fact[2])
+                    elif not in_body:
+                        continue
+                    if fact == want:
+                        return True
+            if isinstance(par, (ast.FunctionDef, ast.AsyncFunctionDef, ast.ClassDef, ast.Lambda)):
+                return False
+            cur = par
+        return False
+
+    for name, dl in defs.items():
+        if len(dl) != 1 or name.startswith("__"):
+            continue
+        tn, fn, is_method = dl[0]
+        cs = calls.get(name, [])
+        if not cs or any(c is None for c in cs):
+            continue
+        if fn.decorator_list or fn.args.vararg or fn.args.kwarg or any(isinstance(x, (ast.Yield, ast.YieldFrom, ast.Await)) for x in ast.walk(fn)):
+            continue
+        params = [a.arg for a in fn.args.args]
+        cands = []
+        # (1) an argument that is not None
+        for i, p in enumerate(params[1:] if is_method else params):
+            srcs = []
+            for c in cs:
+                args = c.args
+                if i < len(args) and isinstance(args[i], ast.Name) and not any(isinstance(a, ast.Starred) for a in args):
+                    srcs.append((c, args[i].id))
+                else:
+                    srcs = None
+                    break
+            if srcs and all(established(c, ("isnone", a, False)) for c, a in srcs):
+                cands.append(("isnone", p))
+        # (2) a boolean field of the receiver
+        if is_method and all(isinstance(c.func, ast.Attribute) and isinstance(c.func.value, ast.Name) for c in cs):
+            fields = None
+            for c in cs:
+                recv = c.func.value.id
+                here = set()
+                cur = c
+                while id(cur) in parents:
+                    par = parents[id(cur)]
+                    if isinstance(par, ast.If):
+                        for t in ([par.test] + (list(par.test.values) if isinstance(par.test, ast.BoolOp) and isinstance(par.test.op, ast.And) else [])):
+                            e, pos = strip_not(t)
+                            if isinstance(e, ast.Attribute) and isinstance(e.value, ast.Name) and e.value.id == recv:
+                                for polarity in (True, False):
+                                    if established(c, ("truth", "%s.%s" % (recv, e.attr), polarity)):
+                                        here.add((e.attr, polarity))
+                    if isinstance(par, (ast.FunctionDef, ast.AsyncFunctionDef)):
+                        break
+                    cur = par
+                fields = here if fields is None else (fields & here)
+            for attr, polarity in sorted(fields or ()):
+                cands.append(("truth", attr, polarity))
+        body = [s_ for s_ in fn.body if not (isinstance(s_, ast.Expr) and isinstance(s_.value, ast.Constant))]
+        for cand in cands:
+            if cand[0] == "isnone":
+                test = ast.Compare(left=ast.Name(id=cand[1], ctx=ast.Load()), ops=[ast.Is()], comparators=[ast.Constant(value=None)])
+            else:
+                attr_ = ast.Attribute(value=ast.Name(id=params[0], ctx=ast.Load()), attr=cand[1], ctx=ast.Load())
+                test = ast.UnaryOp(op=ast.Not(), operand=attr_) if cand[2] else attr_
+            tsrc = ast.unparse(test)
+            # already there (first statement is an if with that test that returns)?
+            first = body[0] if body else None
+            if isinstance(first, ast.If) and ast.unparse(first.test).replace("(", "").replace(")", "") == tsrc.replace("(", "").replace(")", ""):
+                continue
+            # or the whole body already sits under the complementary test
+            if isinstance(first, ast.If) and len(body) == 1 and not first.orelse:
+                e, pos = strip_not(first.test)
+                comp = ast.unparse(ast.UnaryOp(op=ast.Not(), operand=first.test)) if True else ""
+                if cand[0] == "isnone" and isinstance(e, ast.Compare) and ast.unparse(e.left) == cand[1] and isinstance(e.ops[0], ast.IsNot) and pos:
+                    continue
+                if cand[0] == "truth" and isinstance(e, ast.Attribute) and ast.unparse(e) == "%s.%s" % (params[0], cand[1]) and pos == cand[2]:
+                    continue
+            guard = ast.If(test=test, body=[ast.Return(value=None)], orelse=[])
+            ln = fn.body[0].lineno if fn.body else fn.lineno
+            for n_ in ast.walk(guard):
+                n_.lineno = ln
+                n_.col_offset = 0
+                n_.end_lineno = ln
+                n_.end_col_offset = 0
+            idx = 1 if (fn.body and isinstance(fn.body[0], ast.Expr) and isinstance(fn.body[0].value, ast.Constant) and isinstance(fn.body[0].value.value, str)) else 0
+            fn.body.insert(idx, guard)
+            notes.append("%s.%s: guard `%s` established by all %d call sites" % (tn, name, tsrc, len(cs)))
+    return notes
